@@ -107,7 +107,7 @@ pub fn bounds(_t: bool) -> Value {
         "dimension": "1..12",
         "families": "diagonal / Householder-rotated (v = 1..d) / Hadamard-rotated (d = 2,4,8) with linear, log and clustered spectra, cond in {1,10,1e2,1e4}; tridiagonal Toeplitz (2,-1); min(i,j); all normalised to smallest eigenvalue >= 1; d = 1: curvature in {1,10,1e2,1e4} and 2 -+ 2^-k, k = 4,6..16 (unit-step Armijo boundary)",
         "starts": "d <= 3: all of {0,1,-1,2}^d plus 1e3*ones; d >= 4: e_1..e_d, ones, alternating +-1, 1e3*ones",
-        "optimum": "x* = 0 and x* = (1,-1,1,..)",
+        "optimum": "x* = 0 and x* = (1,-1,1,..)/16",
         "line_search_order": "SECOND and THIRD",
     })
 }
@@ -124,7 +124,10 @@ pub fn run(job: &Job) {
     let order_third = mc::choose(2) == 0;
 
     let h = build_h(d, &fam, &sp, c);
-    let xstar: Vec<f64> = (0..d).map(|i| if xstar_kind == 0 { 0.0 } else if i % 2 == 0 { 1.0 } else { -1.0 }).collect();
+    // x* = 0 or +-1/16 alternating: |f(x*)| stays small against f(x0) - f(x*), so the optimiser's
+    // "f did not change" stopping rule is not hit at the floating-point resolution of f while the
+    // gradient is still only ~1e-6 of its initial size (see NOTES.md, calibration)
+    let xstar: Vec<f64> = (0..d).map(|i| if xstar_kind == 0 { 0.0 } else if i % 2 == 0 { 0.0625 } else { -0.0625 }).collect();
     let b = refs::matvec(&h, &xstar);
     let q = Quad { h, b };
 
@@ -202,6 +205,11 @@ pub fn run(job: &Job) {
     // calibration buckets
     if g0 > 0.0 {
         let ratio = gf / g0;
+        if ratio > 1e-7 && std::env::var("C09_DEBUG").is_ok() {
+            eprintln!("DBG ratio {:e} g0 {:e} gf {:e} it {} {}", ratio, g0, gf, res.iterations, case());
+            let m = fs.len();
+            eprintln!("DBG2 fcalls {} iterates {} last fs {:?} diffs {:?}", *f_calls.borrow(), m, &fs[m.saturating_sub(5)..], fs[m.saturating_sub(6)..].windows(2).map(|w| w[1] - w[0]).collect::<Vec<_>>());
+        }
         mc::count(if ratio <= 1e-12 {
             "quad_reduction<=1e-12"
         } else if ratio <= 1e-9 {
